@@ -6,7 +6,8 @@ REPO = os.environ.get('VERIF_REPO', '/repo')
 SPEC = os.path.join(VERIF, 'spec')
 COMPAT = os.path.join(VERIF, 'harness', 'compat')
 HARNESS = os.path.join(VERIF, 'harness')
-EVIDENCE = os.path.join(VERIF, 'evidence')
+EVIDENCE = os.environ.get('VERIF_EVIDENCE') or os.path.join(VERIF, 'evidence')
+REPLAYS = os.environ.get('VERIF_REPLAYS') or os.path.join(VERIF, 'replays')
 PY = '/venv/bin/python'
 NCPU = int(os.environ.get('VERIF_CPUS', str(min(16, os.cpu_count() or 4))))
 
